@@ -352,6 +352,219 @@ def r_symbol_access(ck: Checker) -> None:
     ck.need(n >= 5, f"typed symbol reads found ({n})")
 
 
+# (function, subscript) -> why the sequence has an element at that position (confirmed by reading)
+_SINGLE = "the statement passed is_single (C15.A.is-single: exactly one body aggregate with exactly one `=` bound, exactly one using statement)"
+_MATH = "reached only from Goebner.simplify_equalities, which MathSimplification.execute calls inside `try ... except Exception` (C03.THROW.containment): the statement is kept unchanged"
+INDEX_TRIAGE: dict[tuple[str, str], str] = {
+    ("dependency:DomainPredicates.__compute_nonstatic_predicates", "scc[0]"): "nx.selfloop_edges yields edges: pairs (u, v)",
+    ("inline:InlineTranslator.inline_literal", "rule.body[0]"): "only reached for a negated use, which get_body_lit grants for a single definition whose body has at most one literal; " + _SINGLE + ", so the body has exactly one",
+    ("inline:InlineTranslator.inline_literal", "self.transform_args(orig_arguments, passed_arguments, [newlit.atom], unique_vars)[0]"): "transform_args maps the list it is given element by element: one element in, one out",
+    ("inline:InlineTranslator.inline_body_aggregate", "collect_ast(rule, 'BodyAggregate')[0]"): "dominated by `num_aggs == 1` (one aggregate among the body literals; bodies hold no old-style aggregates after preprocess), and " + _SINGLE,
+    ("inline:InlineTranslator.inline_body_aggregate", "agga.equal_variable_bound[0]"): _SINGLE,
+    ("inline:InlineTranslator.get_body_lit", "stm.body[0]"): _SINGLE + ": the body is not empty",
+    ("inline:InlineTranslator.replace_single_rule_for_body", "rdp.get_statements_that_use(hpred)[0]"): _SINGLE + " - with the same RuleDependency object (C15.fresh-dependency)",
+    ("inline:InlineTranslator.replace_single_rule_for_agg", "rdp.get_statements_that_use(hpred)[0]"): _SINGLE + " - with the same RuleDependency object (C15.fresh-dependency)",
+    ("math_simplification:Goebner.new_mul", "rest[0]"): _MATH,
+    ("math_simplification:Goebner.new_mul", "newterms[0]"): _MATH,
+    ("symmetry:SymmetryTranslator.SymmetryBundle.init_complex", "aux_body[0]"): "_create_count returns [projected literal, count aggregate] (two appends on every path)",
+    ("symmetry:SymmetryTranslator.SymmetryBundle.init_simple", "symmetries[0]"): "_crosscheck builds a bundle with one Symmetry per index of a connected component of its helper graph: a component is never empty",
+    ("symmetry:SymmetryTranslator.SymmetryBundle._create_count", "symmetry.literals[0]"): "the literals of a Symmetry are a group that largest_symmetric_group collected from `equality` tuples of at least two same-predicate literals (an inequality between two of them is required): never empty",
+    ("utils.ast:replace_simple_assignments_aggregate", "sorted(cc)[0]"): "a connected component of a graph is never empty",
+    ("utils.ast:replace_simple_assignments", "sorted(cc)[0]"): "a connected component of a graph is never empty",
+    ("utils.ast:replace_simple_assignments", "new_heads[0]"): "new_heads is `[stm.head]` for a rule and `[weight, priority, *terms]` for an objective, mapped element by element",
+    ("utils.ast:replace_simple_assignments", "new_heads[1]"): "objective branch: new_heads is `[weight, priority, *terms]`",
+    ("utils.ast:replace_assignments", "new_heads[0]"): "new_heads is `[stm.head]` for a rule and `[weight, priority, *terms]` for an objective",
+    ("utils.ast:replace_assignments", "new_heads[1]"): "objective branch: new_heads is `[weight, priority, *terms]`",
+}
+
+
+def _len_conditions(x: str, k: int) -> list[str]:
+    out = [f"len({x}) == {m}" for m in range(max(k + 1, 1), 5)] + [f"{k} < len({x})", f"len({x}) > {k}"] + [f"len({x}) >= {m}" for m in range(k + 1, 5)]
+    if k == 0:
+        out += [x, f"len({x}) != 0", f"0 < len({x})", f"len({x}) >= 1", f"bool({x})"]
+    return out
+
+
+def _holds_here_or_at_callers(ck: Checker, func: Func, site: ast.AST, conds: list[str], depth: int = 0) -> tuple[bool, str]:
+    """one of the conditions holds at `site`, or - when they speak about a parameter - at every call site of func with the
+    argument substituted (recursively, three levels)"""
+    it = ck.interp(func)
+    # `len(C[i].f) == n` for an element of C: `all(x.f for x in C)` says the same for position 0
+    for c in list(conds):
+        m_ = re.fullmatch(r"len\((.+)\[(?:\d+|\*)\]\.(\w+)\) == 1", c)
+        if m_ and f"all(_g0.{m_.group(2)} for _g0 in {m_.group(1)})" not in conds:
+            conds = conds + [f"all(_g0.{m_.group(2)} for _g0 in {m_.group(1)})"]
+    for c in conds:
+        try:
+            if it.holds(site, c) and it.reachable(site):
+                return True, f"dominated by `{short(c, 70)}`" + (f" in {func.name}" if depth else "")
+        except (SyntaxError, AnalysisError):
+            continue
+    if depth >= 3:
+        return False, ""
+    params = [x for x in func.params() if x not in ("self", "cls")]
+    callers = _call_sites(ck, func)
+    if not callers:
+        return False, ""
+    # conditions that speak about parameters only (besides self) can be handed to the callers
+    local_names = {n_.id for n_ in ast.walk(func.node) if isinstance(n_, ast.Name) and isinstance(n_.ctx, ast.Store)}
+    by_roots: dict[frozenset[str], list[str]] = {}
+    for c in conds:
+        try:
+            names = {nm.id for nm in ast.walk(ast.parse(c, mode="eval")) if isinstance(nm, ast.Name)}
+        except SyntaxError:
+            continue
+        names -= {"len", "all", "any", "bool", "_g0", "self"}
+        if names and names <= set(params) and not names & local_names:
+            by_roots.setdefault(frozenset(names), []).append(c)
+    for roots_, cs_ in by_roots.items():
+        ok_all = True
+        for caller, call in callers:
+            mapping = _bind(func, call)
+            if mapping is None or not roots_ <= set(mapping):
+                ok_all = False
+                break
+            itc = ck.interp(caller)
+            alts: list[list[str]] = [cs_]
+            for root in roots_:
+                nxt = []
+                for cs in alts:
+                    for atxt in sorted(itc.texts(call, mapping[root]) | {unparse(mapping[root])}):
+                        nxt.append([re.sub(rf"(?<![\w.]){re.escape(root)}\b", atxt, c) for c in cs])
+                alts = nxt
+            if not any(_holds_here_or_at_callers(ck, caller, enclosing_stmt(caller, call) or call, cs, depth + 1)[0] for cs in alts):
+                ok_all = False
+                break
+        if ok_all:
+            return True, f"holds at every call site of {func.name} ({len(callers)})"
+    return False, ""
+    roots: set[str] = set()
+    for caller, call in callers:
+        mapping = _bind(func, call)
+        if mapping is None or not roots <= set(mapping):
+            return False, ""
+        itc = ck.interp(caller)
+        alts: list[list[str]] = [conds]
+        for root in roots:
+            nxt = []
+            for cs in alts:
+                for atxt in sorted(itc.texts(call, mapping[root]) | {unparse(mapping[root])}):
+                    nxt.append([re.sub(rf"(?<![\w.]){re.escape(root)}\b", atxt, c) for c in cs])
+            alts = nxt
+        if not any(_holds_here_or_at_callers(ck, caller, enclosing_stmt(caller, call) or call, cs, depth + 1)[0] for cs in alts):
+            return False, ""
+    return True, f"holds at every call site of {func.name} ({len(callers)})"
+
+
+def r_index_access(ck: Checker) -> None:
+    """`xs[k]` with a constant k raises IndexError on a shorter sequence: the read is a tuple of fixed size, a vector the
+    grammar guarantees (`Comparison.guards`), dominated by a test of the length (dominating statement, or an earlier
+    operand of the same and/or), or triaged with the reason why the element exists"""
+    from ..mypy_bridge import build
+
+    ti = build()
+    n = 0
+    for func in ck.prg.funcs.values():
+        if isinstance(func.node, ast.Lambda) or func.module.name in ("ngo.utils.parser", "ngo.__main__", "ngo", "ngo.utils.logger"):
+            continue
+        sites = [x for x in find_nodes(func.node, lambda x: isinstance(x, ast.Subscript) and isinstance(x.ctx, ast.Load) and isinstance(x.slice, ast.Constant) and type(x.slice.value) is int and x.slice.value >= 0)]
+        if not sites:
+            continue
+        it = ck.interp(func)
+        for node in sites:
+            k = node.slice.value  # type: ignore[attr-defined]
+            base = node.value  # type: ignore[attr-defined]
+            x = unparse(base)
+            typ = (ti.type_at(func.module.name, base) or "").lower()
+            if typ.startswith("tuple[") or typ.startswith("builtins.tuple[") and "..." not in typ:
+                continue  # fixed size (mypy has checked the index)
+            if isinstance(base, (ast.Tuple, ast.List)) and len(base.elts) > k:
+                continue
+            stmt = enclosing_stmt(func, node)
+            if stmt is None or not it.reachable(stmt):
+                continue
+            n += 1
+            texts = it.texts(stmt, base) | {x}
+            for t in list(texts):
+                m_ = re.fullmatch(r"(?:list|sorted|tuple)\((.+)\)", t)
+                if m_:
+                    texts.add(m_.group(1))  # as long as the collection it was made from
+            if all(t.endswith(".guards") for t in texts):
+                ck.add(f"{short(unparse(node), 60)}", True, func, node, "a Comparison has at least one guard (clingo AST)", "", nontrivial=False, rule="C03.THROW.index")
+                continue
+            conds = [c for t in sorted(texts) for c in _len_conditions(t, k)]
+            # `e.f[0]` where e is an element of a collection C for which `all(x.f for x in C)` was tested
+            if k == 0 and isinstance(base, ast.Attribute):
+                owners = it.texts(stmt, base.value) | {unparse(base.value)}
+                for st_ in it.states(stmt):
+                    org = st_.origin.get(unparse(base.value), "")
+                    if org.endswith("[*]"):
+                        owners.add(org)
+                # a loop variable that is only ever replaced by a variable-renamed copy of itself is still "an element of" the
+                # collection as far as the length of its fields goes
+                if isinstance(base.value, ast.Name):
+                    e_ = base.value.id
+                    for lp_ in find_nodes(func.node, lambda q: isinstance(q, ast.For)):
+                        if isinstance(lp_.target, ast.Name) and lp_.target.id == e_ and any(s is node for s in ast.walk(lp_)):  # type: ignore[attr-defined]
+                            rebinds = [a for a in ast.walk(lp_) if isinstance(a, ast.Assign) and any(isinstance(t, ast.Name) and t.id == e_ for t in a.targets)]
+                            if all(isinstance(a.value, ast.Call) and unparse(a.value.func) == "transform_ast" and len(a.value.args) >= 2 and unparse(a.value.args[0]) == e_ and is_const(a.value.args[1], "Variable") for a in rebinds):
+                                owners.add(unparse(lp_.iter) + "[*]")  # type: ignore[attr-defined]
+                # renaming the variables of a node (transform_ast(E, 'Variable', f)) keeps its shape
+                for o in list(owners):
+                    try:
+                        tree_o = ast.parse(o, mode="eval").body
+                    except SyntaxError:
+                        continue
+                    if isinstance(tree_o, ast.Call) and unparse(tree_o.func) == "transform_ast" and len(tree_o.args) >= 2 and is_const(tree_o.args[1], "Variable"):
+                        inner = tree_o.args[0]
+                        owners.add(unparse(inner))
+                        if isinstance(inner, ast.Name):
+                            # the loop variable that was transformed: where did IT come from
+                            for lp_ in find_nodes(func.node, lambda q: isinstance(q, ast.For)):
+                                if isinstance(lp_.target, ast.Name) and lp_.target.id == inner.id and any(s is node for s in ast.walk(lp_)):  # type: ignore[attr-defined]
+                                    owners.add(unparse(lp_.iter) + "[*]")  # type: ignore[attr-defined]
+                for o in sorted(owners):
+                    m_ = re.fullmatch(r"(.+)\[(?:\d+|\*)\]", o)
+                    if m_:
+                        conds.append(f"all(_g0.{base.attr} for _g0 in {m_.group(1)})")
+            ok, why = False, ""
+            # an earlier operand of the same and / or
+            child: ast.AST = node
+            for anc in ancestors(func, node):
+                if isinstance(anc, ast.BoolOp):
+                    idx = next((i for i, v in enumerate(anc.values) if v is child or any(s is child for s in ast.walk(v))), None)
+                    if idx:
+                        for v in anc.values[:idx]:
+                            if isinstance(anc.op, ast.Or) and isinstance(v, ast.UnaryOp) and isinstance(v.op, ast.Not):
+                                vt = unparse(v.operand)
+                            else:
+                                vt = unparse(v) if isinstance(anc.op, ast.And) else unparse(ast.UnaryOp(op=ast.Not(), operand=v))
+                            if any(same(vt, c) for c in conds):
+                                ok, why = True, "tested by an earlier operand of the same condition"
+                if isinstance(anc, ast.IfExp) and any(s is child for s in ast.walk(anc.body)) and any(same(unparse(anc.test), c) for c in conds):
+                    ok, why = True, "tested by the conditional expression"
+                if isinstance(anc, ast.stmt):
+                    break
+                child = anc
+            if not ok:
+                for c in conds:
+                    try:
+                        if it.holds(stmt, c):
+                            ok, why = True, f"dominated by `{c}`"
+                            break
+                    except (SyntaxError, AnalysisError):
+                        continue
+            if not ok:
+                ok, why = _holds_here_or_at_callers(ck, func, stmt, conds)
+            if not ok:
+                reason = moved_lookup(INDEX_TRIAGE, func.short, unparse(node), _live(ck))
+                if reason is not None:
+                    ok, why = True, f"triaged: {reason}"
+            ck.add(f"{short(unparse(node), 60)}", ok, func, node, f"`{short(unparse(node), 70)}` needs an element at position {k}: {why or 'no length test dominates the read'}",
+                   "an IndexError aborts optimize instead of leaving the construct unchanged (`#max{ : p(X)}` has an element with an empty tuple)", rule="C03.THROW.index")
+    ck.need(n >= 40, f"constant-index reads found ({n})")
+
+
 def r_domain_calls(ck: Checker) -> None:
     """create_domain / create_next_pred_for_annotated_pred / domain_predicate are only called for predicates that have a domain"""
     DP = "ngo.dependency:DomainPredicates"
@@ -545,6 +758,7 @@ RULES = [
     Rule("C03.THROW", P, r_throw),
     Rule("C03.THROW.domain", P, r_domain_calls),
     Rule("C03.THROW.symbol", P, r_symbol_access),
+    Rule("C03.THROW.index", P, r_index_access),
     Rule("C03.THROW.containment", P, r_containment),
     Rule("C03.MYPY", P, r_mypy),
     Rule("C03.LOOP", P, r_loops),
